@@ -1,15 +1,16 @@
 SPECIFICATION Spec
 CONSTANTS
-  MaxSize = 4
+  MaxSize = 3
   MaxBlocks = 3
   Inits = "full"
-  KindMode = "two"
+  KindMode = "alt"
   AlignVals = {2, 4, 8}
   MaxAligned = 2
   ItemMode = "none"
   MaxItems = 0
   Addrs = {"4096"}
   Grows = {1, 2, 3}
+  Lates = FALSE
   NopKinds = {"1", "4"}
   VariantSet = "align"
   Rotate = 2
